@@ -1,4 +1,4 @@
-//go:build verif
+//go:build verif && amd64
 
 package c20
 
@@ -35,9 +35,10 @@ const (
 
 // guarded is one buffer of 729 words inside an mmap'ed region with PROT_NONE guards on both sides.
 type guarded struct {
-	mem []byte
-	off int
-	arr *[stateWords]uint
+	mem            []byte
+	dataLo, dataHi int // accessible part of mem
+	off            int
+	arr            *[stateWords]uint
 }
 
 func newGuarded(flushEnd bool) (*guarded, error) {
@@ -55,13 +56,51 @@ func newGuarded(flushEnd bool) (*guarded, error) {
 	if flushEnd {
 		off = guardBytes + dataBytes - arrayBytes
 	}
-	g := &guarded{mem: mem, off: off}
+	g := &guarded{mem: mem, dataLo: guardBytes, dataHi: guardBytes + dataBytes, off: off}
 	g.arr = (*[stateWords]uint)(unsafe.Pointer(&mem[off]))
 	return g, nil
 }
 
+// newStraddling places a guarded buffer so that the 729-word array straddles the address boundary
+// (an address whose low 32 bits are low32, i.e. 0x80000000 or 0): address arithmetic that is carried
+// out in fewer than 64 bits goes wrong exactly there. The kernel is asked for a fixed address
+// (MAP_FIXED_NOREPLACE); several high parts are tried.
+func newStraddling(low32 uintptr, skew int) (*guarded, error) {
+	const mapFixedNoReplace = 0x100000
+	const page = 4096
+	var lastErr error
+	for k := uintptr(0x31); k < 0x71; k++ {
+		b := k<<32 | low32
+		start := b - 3*page
+		p, _, e := syscall.Syscall6(syscall.SYS_MMAP, start, 6*page, syscall.PROT_READ|syscall.PROT_WRITE, syscall.MAP_ANON|syscall.MAP_PRIVATE|mapFixedNoReplace, ^uintptr(0), 0)
+		if e != 0 {
+			lastErr = e
+			continue
+		}
+		if p != start {
+			syscall.Syscall(syscall.SYS_MUNMAP, p, 6*page, 0)
+			lastErr = fmt.Errorf("kernel placed the mapping at %#x instead of %#x", p, start)
+			continue
+		}
+		mem := unsafe.Slice((*byte)(unsafe.Pointer(p)), 6*page)
+		if err := syscall.Mprotect(mem[:page], syscall.PROT_NONE); err != nil {
+			return nil, err
+		}
+		if err := syscall.Mprotect(mem[5*page:], syscall.PROT_NONE); err != nil {
+			return nil, err
+		}
+		// the boundary is at mem[3*page]; skew moves the array so that the boundary falls early, in the
+		// middle or late in the array (always 8-byte aligned)
+		off := 3*page - skew
+		g := &guarded{mem: mem, dataLo: page, dataHi: 5 * page, off: off}
+		g.arr = (*[stateWords]uint)(unsafe.Pointer(&mem[off]))
+		return g, nil
+	}
+	return nil, lastErr
+}
+
 func (g *guarded) fillCanary() {
-	for i := guardBytes; i < guardBytes+dataBytes; i++ {
+	for i := g.dataLo; i < g.dataHi; i++ {
 		if i < g.off || i >= g.off+arrayBytes {
 			g.mem[i] = canary
 		}
@@ -69,7 +108,7 @@ func (g *guarded) fillCanary() {
 }
 
 func (g *guarded) canaryIntact() bool {
-	for i := guardBytes; i < guardBytes+dataBytes; i++ {
+	for i := g.dataLo; i < g.dataHi; i++ {
 		if (i < g.off || i >= g.off+arrayBytes) && g.mem[i] != canary {
 			return false
 		}
@@ -77,22 +116,43 @@ func (g *guarded) canaryIntact() bool {
 	return true
 }
 
-// two placements x four buffers, allocated once
-var placements [2][4]*guarded
+// placements x four buffers, allocated once: 0 flush with the end of the accessible pages, 1 flush with
+// their start, 2 straddling an address with low 32 bits 0x80000000, 3 straddling a multiple of 2^32
+var placements [][4]*guarded
+
+var placementNames = []string{"flush-end", "flush-start", "straddles-2^31", "straddles-2^32"}
 
 func initGuards() error {
-	if placements[0][0] != nil {
+	if placements != nil {
 		return nil
 	}
+	pl := make([][4]*guarded, 2)
 	for p := 0; p < 2; p++ {
 		for b := 0; b < 4; b++ {
 			g, err := newGuarded(p == 0)
 			if err != nil {
 				return err
 			}
-			placements[p][b] = g
+			pl[p][b] = g
 		}
 	}
+	for _, low := range []uintptr{0x80000000, 0} {
+		var set [4]*guarded
+		ok := true
+		for b := 0; b < 4; b++ {
+			g, err := newStraddling(low, []int{8, 2912, 5824, 1024}[b])
+			if err != nil {
+				h.Note("no buffer placement straddling low-32-bit address %#x available: %v", low, err)
+				ok = false
+				break
+			}
+			set[b] = g
+		}
+		if ok {
+			pl = append(pl, set)
+		}
+	}
+	placements = pl
 	return nil
 }
 
@@ -105,7 +165,7 @@ type stateCase struct {
 	HoleLane int      `json:"hole_lane,omitempty"`
 	L        []uint64 `json:"l,omitempty"`
 	H        []uint64 `json:"h,omitempty"`
-	Place    int      `json:"place"`     // guard placement 0/1
+	Place    int      `json:"place"`     // guard placement 0..3 (see placements)
 	FlipLane int      `json:"flip_lane"` // lane whose input is changed for the independence check
 }
 
@@ -162,7 +222,8 @@ func runGuarded(place int, l, hh *[stateWords]uint, f func(lto, hto, lfrom, hfro
 	if e := initGuards(); e != nil {
 		return outL, outH, fmt.Errorf("VERIF-INFRA mmap: %v", e)
 	}
-	g := placements[place&1]
+	place = ((place % len(placements)) + len(placements)) % len(placements)
+	g := placements[place]
 	for _, b := range g {
 		b.fillCanary()
 	}
@@ -175,7 +236,7 @@ func runGuarded(place int, l, hh *[stateWords]uint, f func(lto, hto, lfrom, hfro
 		defer debug.SetPanicOnFault(old)
 		defer func() {
 			if r := recover(); r != nil {
-				err = fmt.Errorf("memory fault inside the permutation (access outside the four 729-word buffers, placement %d): %v", place&1, r)
+				err = fmt.Errorf("memory fault inside the permutation (access outside the four 729-word buffers, placement %s): %v", placementNames[place], r)
 			}
 		}()
 		f(g[0].arr, g[1].arr, g[2].arr, g[3].arr)
@@ -185,7 +246,7 @@ func runGuarded(place int, l, hh *[stateWords]uint, f func(lto, hto, lfrom, hfro
 	}
 	for i, b := range g {
 		if !b.canaryIntact() {
-			return outL, outH, fmt.Errorf("bytes next to buffer %d were overwritten (placement %d)", i, place&1)
+			return outL, outH, fmt.Errorf("bytes next to buffer %d were overwritten (placement %s)", i, placementNames[place])
 		}
 	}
 	return *g[0].arr, *g[1].arr, nil
@@ -215,6 +276,12 @@ func checkState(c stateCase) (h.Info, error) {
 		info = h.Info{Class: c.Kind + "/no-undefined-pairs", NT: true}
 	}
 
+	if e := initGuards(); e != nil {
+		return info, fmt.Errorf("PRECONDITION: mmap: %v", e)
+	}
+	if pl := c.Place % len(placements); pl >= 2 {
+		info.Class += "@" + placementNames[pl]
+	}
 	// (a) both routines in guarded memory
 	inL, inH := l, hh
 	aL, aH, err := runGuarded(c.Place, &inL, &inH, curl.VerifTransform)
@@ -285,7 +352,7 @@ func checkState(c stateCase) (h.Info, error) {
 }
 
 func genState(t *rapid.T) stateCase {
-	c := stateCase{Seed: rapid.Uint64().Draw(t, "seed"), Place: rapid.IntRange(0, 1).Draw(t, "place"), FlipLane: rapid.IntRange(0, 63).Draw(t, "flip")}
+	c := stateCase{Seed: rapid.Uint64().Draw(t, "seed"), Place: rapid.IntRange(0, 3).Draw(t, "place"), FlipLane: rapid.IntRange(0, 63).Draw(t, "flip")}
 	switch h.Pick(t, "kind", 6, 2, 3, 2) {
 	case 0:
 		c.Kind, c.Mode = "valid", h.Pick(t, "mode", 1, 2, 4, 1)
